@@ -145,6 +145,17 @@ def gen_cases(rng, tier):
         else:
             ddof = 1 if (fn != "mean" and nred > 1 and rng.random() < 0.4) else 0
             out.append(("statistics", "stat S:%s S:%s %s %s I:%d" % (fn, kd, A(shape, data), ax, ddof), "c08s"))
+    # explicit result dtype (float64 / int32) on int64 data
+    for i in range(200 if tier == "quick" else 1500):
+        shape = rng.choice(shapes); d = len(shape)
+        r = rng.random()
+        if r < 0.15: ax = "N"
+        else:
+            sub = rng.sample(range(d), rng.randint(1, d)); sub = [a - d if rng.random() < 0.5 else a for a in sub]
+            ax = "I:%d" % sub[0] if (len(sub) == 1 and rng.random() < 0.5) else L(sub)
+        fn = ["sum", "prod"][i % 2]
+        init = "N" if rng.random() < 0.5 else "I:%d" % (rng.choice([1, -1, 2, 3]) if fn == "prod" else rng.randint(-20, 20))
+        out.append(("dtype-arg", "dt S:%s S:%s S:%s %s %s %s" % (fn, ["f64", "i32"][(i // 2) % 2], KDS[i % 5], A(shape, data_for(rng, fn, size(shape))), ax, init), "c08s"))
     for shape in shapes:
         if len(shape) in (2, 3) and rng.random() < 0.5:
             out.append(("statistics", "trace %s" % A(shape, [rng.randint(-9, 9) for _ in range(size(shape))]), "c08s"))
